@@ -77,19 +77,16 @@ fn compile_field_values<E: quiver_core::effects::Effect>(
     for field in fields {
         match &field.value {
             ast::FieldValue::Chain(chain) => {
-                // Pass ripple_context with incremented offset
-                let ripple_context_value;
-                let ripple_context_param = if let Some(ctx) = ripple_context {
-                    ripple_context_value = RippleContext {
-                        value_type_id: ctx.value_type_id,
-                        stack_offset: ctx.stack_offset + stack_size,
-                        owns_value: false,
-                        provenance: ctx.provenance.clone(),
-                    };
-                    Some(&ripple_context_value)
-                } else {
-                    None
-                };
+                // As in a tuple without spreads, each field chain receives a copy of the
+                // enclosing (piped) value as its input, so a leading callable or block field is
+                // applied to it (`9 [...a, f]` calls `f` with 9, like `9 [f]`). The original
+                // stays lower on the stack for the fields and spreads that follow.
+                let input = ripple_context.map(|ctx| {
+                    compiler
+                        .codegen
+                        .add_instruction(Instruction::Pick(ctx.stack_offset + stack_size));
+                    (ctx.value_type_id, ctx.provenance.clone())
+                });
                 // A narrowing recorded by this field's match must not outlive the field: the
                 // fields after it are evaluated whether or not the match succeeded.
                 let narrowings_before: Vec<_> = compiler
@@ -97,7 +94,15 @@ fn compile_field_values<E: quiver_core::effects::Effect>(
                     .iter()
                     .map(|scope| scope.narrowings.clone())
                     .collect();
-                let type_id = compiler.compile_chain(chain.clone(), None, ripple_context_param)?;
+                let (type_id, _) = compiler.compile_chain_with_input(
+                    chain.clone(),
+                    None,
+                    None,
+                    input,
+                    None,
+                    false,
+                    None,
+                )?;
                 for (scope, narrowings) in compiler.scopes.iter_mut().zip(narrowings_before) {
                     scope.narrowings = narrowings;
                 }
